@@ -147,7 +147,9 @@ type stderrLogger struct{}
 func (stderrLogger) Debug(msg string, args ...any) {}
 func (stderrLogger) Info(msg string, args ...any)  {}
 func (stderrLogger) Warn(msg string, args ...any)  { fmt.Fprintf(os.Stderr, "WARN "+msg+"\n", args...) }
-func (stderrLogger) Error(msg string, args ...any) { fmt.Fprintf(os.Stderr, "ERROR "+msg+"\n", args...) }
+func (stderrLogger) Error(msg string, args ...any) {
+	fmt.Fprintf(os.Stderr, "ERROR "+msg+"\n", args...)
+}
 
 // State reads the server's tables through the hooks.
 func (i *Inst) State() *State {
@@ -379,13 +381,9 @@ func Canary(url string, timeout time.Duration) (time.Duration, error) {
 		return time.Since(t0), err
 	}
 	defer ch.Close()
-	resp, err := ch.Call(ctx, &ua.ReadRequest{NodesToRead: []*ua.ReadValueID{{NodeID: ua.NewNumericNodeID(0, 2258), AttributeID: ua.AttributeIDValue}}}, nil, timeout)
-	if err != nil {
-		return time.Since(t0), err
-	}
-	rr, ok := resp.(*ua.ReadResponse)
-	if !ok || len(rr.Results) != 1 || rr.Results[0].Status != ua.StatusOK {
-		return time.Since(t0), fmt.Errorf("canary read: unexpected answer %T", resp)
+	res := ch.Do(ReadReq(ua.NewNumericNodeID(0, 2258), ua.AttributeIDValue), nil, timeout)
+	if res.Class != "ok" || res.Detail != "Good" {
+		return time.Since(t0), fmt.Errorf("canary read: %s", res.String())
 	}
 	return time.Since(t0), nil
 }
